@@ -3335,14 +3335,9 @@ impl SctpInner {
         let mut max_retransmits: Option<u16> = None;
         let mut expiry: Option<Instant> = None;
 
-        let (_guard, ssn) = if let Some(dc) = &dc_opt {
+        let _guard = if let Some(dc) = &dc_opt {
             let guard = dc.send_lock.lock().await;
             ordered = if is_dcep { false } else { dc.ordered };
-            let ssn = if ordered {
-                dc.next_ssn.fetch_add(1, Ordering::SeqCst)
-            } else {
-                0
-            };
             max_payload_size = dc.max_payload_size.min(DEFAULT_MAX_PAYLOAD_SIZE);
             if !is_dcep {
                 max_retransmits = dc.max_retransmits;
@@ -3354,7 +3349,7 @@ impl SctpInner {
                     self.has_pr_sctp.store(true, Ordering::Relaxed);
                 }
             }
-            (Some(guard), ssn)
+            Some(guard)
         } else {
             // Check if we should error if channel not found or not open
             // Existing logic didn't return early if dc_opt is None?
@@ -3365,7 +3360,7 @@ impl SctpInner {
             // If DCEP, order is false, ssn 0.
             // If data, order matters.
             // Assuming default disordered if channel lost??
-            (None, 0)
+            None
         };
 
         // Ensure we error if channel is definitely closed/missing?
@@ -3392,6 +3387,16 @@ impl SctpInner {
             }
             self.flow_control_notify.notified().await;
         }
+
+        // The stream sequence number is taken only now, still under the channel's
+        // send lock and with nothing left that can suspend or fail before the
+        // fragments are queued. A send that is dropped while it waits for buffer
+        // credit above (tokio::time::timeout, a losing select! arm) must not consume
+        // one: the receiver would wait for that SSN for ever.
+        let ssn = match &dc_opt {
+            Some(dc) if ordered => dc.next_ssn.fetch_add(1, Ordering::SeqCst),
+            _ => 0,
+        };
 
         self.queued_bytes.fetch_add(total_len, Ordering::Relaxed);
 
